@@ -80,4 +80,29 @@ PROPS = {
             "the headline theorem decode_eq_spec (de.rs = Wire.decodeArgs for all inputs) is not a theorem: de.rs is not modelled line by line; the equality is established by the correspondence. Proved: properties of the specification decoder itself (reserved/null/empty rules, trailing bytes, magic) and, in C03/C10, its round trip with the encoder model",
         ],
     },
+    "C03": {
+        "harness": "C03",
+        "profiles": ["debug"],
+        "rule": "(environment, argument types, values) triples: hand-written recursive lists with aliases of primitives (alias chains, an alias of principal), undefined names, more types than values; "
+                "random possibly-recursive environments with 0-3 arguments and generated inhabitants (named and numeric labels, references), near-miss values (wrong width, missing field, unknown tag, wrong reference kind) and the three allowances; "
+                "each is encoded by to_bytes_with_types (twice: determinism), read back by from_bytes_with_types and from_bytes, and compared byte-for-byte with the encoder model and value-for-value with the spec reader; "
+                "every request is non-trivial; distinct = distinct request lines",
+        "trusted": [
+            "Wire.encodeArgs / Wire.buildType / Wire.serVal mirror ser.rs TypeSerialize and IDLValue::idl_serialize by hand; BTreeMap<Type,i32> is modelled as an association list (only lookups and length are used)",
+            "the reader is the specification-level decoder of C02",
+            "f64 -> f32 narrowing in annotate_type(from_parser) is not modelled (generators avoid it)",
+        ],
+        "assumptions": ["native (Rust-typed) encoding goes through the same TypeSerialize/ValueSerializer; its type derivation is covered by C01"],
+        "partial": [
+            "proved: the reader inverts the writer on every leaf of the value grammar except nat/int (C09), on lengths and principals; the composite round trip decVal (serVal v) = v for all well-typed v and the table well-formedness invariant of buildType are not yet theorems (correspondence only)",
+        ],
+    },
+    "C10": {
+        "harness": "C03",
+        "profiles": ["debug"],
+        "rule": "same generated triples as C03, every value annotated at its type in both modes (from_parser true/false), one near-miss per value, the three allowances, Number literals at every numeric type; every request non-trivial",
+        "trusted": ["Wire.annotate mirrors IDLValue::annotate_type by hand (HashMap of record fields: last binding wins)"],
+        "assumptions": ["shares the harness run of C03 (wire.annotate and wire.roundtrip ops)"],
+        "partial": ["annotate_roundtrip for all well-typed values is not yet a theorem; proved: the allowances, rejection of the named near-miss kinds, leaf round trips"],
+    },
 }
